@@ -396,14 +396,28 @@ class FSM:
             d[c] = list(v)
         return d
 
-    def is_crew_done(self):
+    def _is_ready(self, priority) -> bool:
+        '''the condition of the priority holds and an update can start now'''
         # pylint: disable=protected-access
-        while dawgie.pl.farm._busy and self.waiting_on_crew():
+        if not self.is_pipeline_active():
+            return False
+        if priority == dawgie.tools.submit.Priority.CREW:
+            return not dawgie.pl.farm._busy
+        if priority == dawgie.tools.submit.Priority.DOING:
+            return not dawgie.pl.schedule.view_doing()
+        return not dawgie.pl.schedule.que
+
+    def is_crew_done(self):
+        while self.waiting_on_crew() and not self._is_ready(
+            dawgie.tools.submit.Priority.CREW
+        ):
             time.sleep(0.2)
         return
 
     def is_doing_done(self):
-        while dawgie.pl.schedule.view_doing() and self.waiting_on_doing():
+        while self.waiting_on_doing() and not self._is_ready(
+            dawgie.tools.submit.Priority.DOING
+        ):
             time.sleep(0.2)
         return
 
@@ -411,7 +425,9 @@ class FSM:
         return self.state == 'running' and self.transitioning == Status.active
 
     def is_todo_done(self):
-        while dawgie.pl.schedule.que and self.waiting_on_todo():
+        while self.waiting_on_todo() and not self._is_ready(
+            dawgie.tools.submit.Priority.TODO
+        ):
             time.sleep(0.2)
         return
 
@@ -553,10 +569,14 @@ class FSM:
 
     def wait_for_crew(self):
         def done(*_args, **_kwds):
-            # the waiter is gone whatever happens next
+            # runs in the reactor thread: the waiter is gone whatever happens
+            # next, and the condition may have changed since it was polled
             self.crew_thread = None
             if self.waiting_on_crew():
-                self.update_trigger()
+                if self._is_ready(dawgie.tools.submit.Priority.CREW):
+                    self.update_trigger()
+                else:
+                    self.wait_for_crew()
             return
 
         log.info("Waiting for crew to be empty.")
@@ -579,10 +599,14 @@ class FSM:
 
     def wait_for_doing(self):
         def done(*_args, **_kwds):
-            # the waiter is gone whatever happens next
+            # runs in the reactor thread: the waiter is gone whatever happens
+            # next, and the condition may have changed since it was polled
             self.doing_thread = None
             if self.waiting_on_doing():
-                self.update_trigger()
+                if self._is_ready(dawgie.tools.submit.Priority.DOING):
+                    self.update_trigger()
+                else:
+                    self.wait_for_doing()
             return
 
         log.info("Waiting for doing to be empty.")
@@ -612,10 +636,14 @@ class FSM:
 
     def wait_for_todo(self):
         def done(*_args, **_kwds):
-            # the waiter is gone whatever happens next
+            # runs in the reactor thread: the waiter is gone whatever happens
+            # next, and the condition may have changed since it was polled
             self.todo_thread = None
             if self.waiting_on_todo():
-                self.update_trigger()
+                if self._is_ready(dawgie.tools.submit.Priority.TODO):
+                    self.update_trigger()
+                else:
+                    self.wait_for_todo()
             return
 
         log.info("Waiting for todo, doing, and crew to be empty.")
